@@ -163,8 +163,14 @@ func VerifC08Compact() {
 	}
 	vCheckSurvivors(l, model, keep, vParam("reverse", 1) == 1)
 	vAssert(l.NewestOffset() == int64(n-1), "NewestOffset unchanged by compaction")
-	// idempotence
+	// a repeated compaction: same survivors, except that a segment rolled
+	// meanwhile is now the newest one and the former newest is compacted too
+	segs = l.(*commitLog).Segments()
+	keep2 := vSurvivors(model, hw, segs[len(segs)-1].BaseOffset)
+	for i := range keep2 {
+		keep2[i] = keep2[i] && keep[i]
+	}
 	vAssert(l.Clean() == nil, "second Clean succeeds")
-	vCheckSurvivors(l, model, keep, false)
+	vCheckSurvivors(l, model, keep2, false)
 	vCover("done")
 }
